@@ -114,6 +114,15 @@ T10_OF = {
     "TestUnitReady": 0x00, "Write10": 0x2A, "Write12": 0xAA, "Write16": 0x8A, "WriteSame10": 0x41, "WriteSame16": 0x93,
 }
 
+def _mode_sense10_answer(rng):
+    long_ = rng.randrange(2)
+    if long_:
+        bd = rng.choice([b"", R.be(rng.randrange(1 << 40), 8) + bytes(4) + R.be(4096, 4)])
+    else:
+        bd = rng.choice([b"", R.be(rng.randrange(1 << 24), 4) + R.be(512, 4)])
+    return R.mode_sense10([R.disconnect_reconnect_page(max_burst=rng.randrange(1 << 16))], longlba=long_, block_descriptors=bd)
+
+
 DATAIN = {
     "Inquiry": lambda rng: (R.std_inquiry(rng.randrange(32), vendor="V%d" % rng.randrange(99)), {}) if rng.random() < 0.4 else
     (R.vpd_device_id(rng.randrange(32), [R.designation_descriptor(1, 0, 3, R.naa6(rng.randrange(1 << 24), rng.randrange(1 << 16), rng.randrange(1 << 64))),
@@ -123,14 +132,20 @@ DATAIN = {
     "ReadCapacity16": lambda rng: (R.read_capacity16(rng.randrange(1 << 64), 512, lbpme=1), {}),
     "GetLBAStatus": lambda rng: (R.get_lba_status([(rng.randrange(1000), rng.randrange(1, 99), rng.randrange(3)) for _ in range(rng.randrange(4))]), {}),
     "ReportLuns": lambda rng: (R.report_luns([rng.randrange(1 << 64) for _ in range(rng.randrange(5))]), {}),
-    "ModeSense6": lambda rng: (R.mode_sense6([R.control_page(swp=rng.randrange(2), busy_timeout=rng.randrange(1 << 16))]), {}),
-    "ModeSense10": lambda rng: (R.mode_sense10([R.disconnect_reconnect_page(max_burst=rng.randrange(1 << 16))]), {}),
+    # with and without block descriptors (8-byte short form; 16-byte form when MODE SENSE(10) reports LONGLBA=1)
+    "ModeSense6": lambda rng: (R.mode_sense6([R.control_page(swp=rng.randrange(2), busy_timeout=rng.randrange(1 << 16))],
+                                             block_descriptors=rng.choice([b"", R.be(rng.randrange(1 << 24), 4) + R.be(512, 4)])), {}),
+    "ModeSense10": lambda rng: (_mode_sense10_answer(rng), {}),
     "ReadElementStatus": lambda rng: (R.read_element_status(0, 2, [R.element_status_page(2, [R.element_descriptor(0x100 + i, full=rng.randrange(2)) for i in range(2)])]), {}),
     "ReportTargetPortGroups": lambda rng: (R.rtpg([dict(aas=rng.randrange(4), tpg=rng.randrange(99), ports=[1, 2])]), {}),
     "PersistentReserveInReadKeys": lambda rng: (R.pr_read_keys(rng.randrange(99), [rng.randrange(1 << 64) for _ in range(rng.randrange(4))]), {}),
     "PersistentReserveInReadReservation": lambda rng: (R.pr_read_reservation(rng.randrange(99), (rng.randrange(1 << 64), 0, rng.choice([1, 3, 5]))), {}),
     "PersistentReserveInReportCapabilities": lambda rng: (R.pr_report_capabilities(), {}),
     "ReadDiscInformation": lambda rng: (R.disc_information_standard(sessions=rng.randrange(300)), {}),
+    "PersistentReserveInReadFullStatus": lambda rng: (R.pr_read_full_status(rng.randrange(99), [
+        dict(key=rng.randrange(1 << 64), holder=rng.randrange(2), scope=0, type=rng.choice([1, 3, 5]), rtpi=rng.randrange(9),
+             tid=rng.choice([R.transport_id_iscsi("iqn.2026-10.verif:n%d" % rng.randrange(9)), R.transport_id_sas(R.be(rng.randrange(1 << 64), 8)),
+                             R.transport_id_fc(R.be(rng.randrange(1 << 64), 8))])) for _ in range(rng.randrange(1, 4))]), {}),
 }
 ROUNDTRIP = ["Inquiry", "ReadCapacity10", "ReadCapacity16", "GetLBAStatus", "ReportLuns", "ModeSense6", "ModeSense10", "ReadElementStatus"]
 
@@ -181,6 +196,12 @@ def gen_thread_ops(rng, n, classes, allow_facade):
                 op["blocksize"] = 0          # a construction that is refused
             slots.append(name)
             ops.append(op)
+        elif r < 0.47 and slots:
+            # a second command of the same class with equal arguments (each command is its own object, with its own bytes)
+            k = rng.randrange(len(slots))
+            earlier = [o for o in ops if o["op"] == "construct"][k]
+            ops.append(copy.deepcopy(earlier))
+            slots.append(slots[k])
         elif r < 0.52:
             # equal inputs (the very same argument objects) twice -> equal bytes
             name = rng.choice(classes) if rng.random() < 0.6 else rng.choice(["ExtendedCopy4", "ExtendedCopy5", "PersistentReserveOut", "ModeSelect6"])
@@ -192,6 +213,8 @@ def gen_thread_ops(rng, n, classes, allow_facade):
             ops[-1]["tw"] = gen_ctor(rng, ops[-1]["cls"])
         elif r < 0.575:
             ops.append({"op": "scribble", "slot": rng.randrange(len(slots)), "n": rng.choice([1, 4, 36])})
+            if rng.random() < 0.5:
+                ops[-1]["cdb"] = rng.choice([0x04, 0x40, 0xC0])       # ... and patches a byte of its own CDB in place (e.g. the CONTROL byte)
         elif r < 0.585:
             ops.append({"op": "rebuild", "slot": rng.randrange(len(slots))})
         elif r < 0.6:
@@ -213,6 +236,10 @@ def gen_thread_ops(rng, n, classes, allow_facade):
             buf, kw = DATAIN[name](rng)
             ops.append({"op": rng.choice(["unmarshall_datain", "roundtrip_datain"]) if name in ROUNDTRIP else "unmarshall_datain",
                         "cls": name, "buf": bytes(buf).hex(), "dkw": kw, "tw": gen_ctor(rng, name)})
+            if rng.random() < 0.5:
+                # the next answer of the same kind (an application polling): decoded on its own, whatever was decoded before
+                buf2, kw2 = DATAIN[name](rng)
+                ops.append({"op": "unmarshall_datain", "cls": name, "buf": bytes(buf2).hex(), "dkw": kw2, "tw": gen_ctor(rng, name)})
         else:
             ops.append({"op": "repeat_encode", "slot": rng.randrange(len(slots))})
     return ops
@@ -524,6 +551,8 @@ def do_op(ctx, op, reference):
             for buf in (cmd.dataout, cmd.datain):
                 if isinstance(buf, bytearray):
                     buf.extend(b"\xa5" * op["n"])
+            if op.get("cdb") and isinstance(cmd.cdb, bytearray) and len(cmd.cdb):
+                cmd.cdb[-1] ^= op["cdb"]
             ctx.snaps[op["slot"]] = snap(cmd)
             return "scribbled"
         if kind == "rebuild":
@@ -649,7 +678,7 @@ def compute_reference(prog):
                 slot_spec = specs[op["slot"]]
             r = core.fork_run(_alone, (t, op, slot_spec, scr.get(op.get("slot"), []) if "slot" in op else []))
             if op["op"] == "scribble":
-                scr.setdefault(op["slot"], []).append(op["n"])
+                scr.setdefault(op["slot"], []).append({"op": "scribble", "n": op["n"], "cdb": op.get("cdb")})
             if op["op"] == "unmarshall_own":
                 scr.setdefault(op["slot"], []).append({"op": "unmarshall_own", "seed": op.get("seed", 0)})
             if "harness_error" in r:
